@@ -141,7 +141,9 @@ func (P) Exec(line string) string {
 			}(i, sub)
 		}
 		close(start)
-		wg.Wait()
+		if !waitOrHang(&wg, 120*time.Second) {
+			return "hang"
+		}
 		return strings.Join(outs, "|")
 	case "seq", "seqp":
 		// successive chain instances ("lives"): seq = over the same data with different
@@ -214,6 +216,19 @@ func (P) Exec(line string) string {
 		return res(a, aerr) + "," + res(b, berr) + "," + rt(st.StartTime()) + "," + rt(en.EndTime())
 	}
 	return "bad-op"
+}
+
+// waitOrHang waits for wg; false if it did not finish in time (a call into the real code blocks,
+// e.g. on a lock left held): the caller then answers "hang" instead of blocking the whole run.
+func waitOrHang(wg *sync.WaitGroup, d time.Duration) bool {
+	done := make(chan struct{})
+	go func() { wg.Wait(); close(done) }()
+	select {
+	case <-done:
+		return true
+	case <-time.After(d):
+		return false
+	}
 }
 
 // paramsSnapshot renders everything of a Params value that the version bits code reads.
@@ -398,7 +413,9 @@ func execQ(f []string, shared *chaincfg.Params) string {
 				}(k)
 			}
 			close(start)
-			wg.Wait()
+			if !waitOrHang(&wg, 30*time.Second) {
+				return "hang"
+			}
 			out = append(out, strings.Join(res, "/"))
 		case 'P': // the exported, lock-taking methods called from 6 goroutines at once on one tip
 			if window == 0 && node >= 0 {
@@ -437,7 +454,9 @@ func execQ(f []string, shared *chaincfg.Params) string {
 					}
 				}(k)
 			}
-			wg.Wait()
+			if !waitOrHang(&wg, 30*time.Second) {
+				return "hang"
+			}
 			out = append(out, strings.Join(res, "/"))
 		case 'm': // exported BlockChain.PastMedianTime (the BlockClock)
 			if node < 0 {
